@@ -10,7 +10,7 @@
 (* followed by inspections, edits, probes or CONT -- within the budget.    *)
 (* Continue and Provide are free; every Submit and Break costs 1.          *)
 (***************************************************************************)
-EXTENDS MC_Session
+EXTENDS MC_Session, Analyzer
 
 K(name, lines) == [name |-> name, lines |-> [i \in 1..Len(lines) |-> B(lines[i])]]
 
@@ -74,6 +74,13 @@ CapKernels == {
     K("kinds2",   << "10 A$=1" >>), K("kinds3", << "10 A=\"s\"" >>), K("kinds4", << "10 B(1)=\"s\"" >>),
     K("kinds5",   << "10 DEF G(N$)=1:PRINT G(1)" >>), K("kinds6", << "10 DATA x", "20 READ C" >>)
 }
+
+\* C06, forward direction, over every execution of a kernel the static checker accepts
+\* (replies range over ReplySet): no run fails with a syntax error, a type mismatch or an
+\* undefined line.
+CheckerAccepts(s) == ProgramErrors(Load(Start, s.lines)) = <<>>
+BadRunKind(kind) == kind \in {"type_mismatch", "undefined_statement"} \/ (Len(kind) >= 6 /\ SubSeq(kind, 1, 6) = "syntax")
+C06Forward == (CheckerAccepts(start) /\ ~last.ok) => ~BadRunKind(last.kind)
 
 FreeRunCost(c) == IF c.k \in {"continue", "provide"} THEN 0 ELSE 1
 =============================================================================
